@@ -15,11 +15,11 @@ import (
 // never validates another AS's hop fields.
 
 type FHop struct {
-	AS      *AS // nil: foreign hop with a random MAC
-	In, Eg  uint16 // construction ingress / egress
-	Exp     uint8
-	Beta    uint16 // accumulator the MAC is computed with (only for AS != nil)
-	mac     [6]byte
+	AS     *AS    // nil: foreign hop with a random MAC
+	In, Eg uint16 // construction ingress / egress
+	Exp    uint8
+	Beta   uint16 // accumulator the MAC is computed with (only for AS != nil)
+	mac    [6]byte
 }
 
 type FSeg struct {
